@@ -122,7 +122,7 @@ func main() {
 	c.Meta.Corr = []string{"Taints.ToleratesPod", "HostPortUsage.Conflicts", "resources.Fits", "NewPodRequirements/NewStrictPodRequirements",
 		"Preferences.Relax", "VolumeUsage.ExceedsLimits", "VolumeTopology.GetRequirements", "NewExistingNode.remainingResources", "filterInstanceTypesByRequirements", "NodeClaim.CanAdd/Add", "ExistingNode.CanAdd/Add",
 		"Scheduler.Solve placements vs admissibility oracle (1/4/16 workers agree)"}
-	nUnit, nNC, nEX, nWorlds := 150, 120, 80, 100
+	nUnit, nNC, nEX, nWorlds := 150, 100, 60, 100
 	if c.Thorough() {
 		nUnit, nNC, nEX, nWorlds = 600, 600, 300, 400
 	}
